@@ -139,7 +139,7 @@ CATALOGUE: dict[str, tuple[type, list]] = {
     "Node": (ak.Node, [lambda: {"value": 1}, lambda: {"value": 1, "next": ak.Node(value=2)}]),
     "BoxInt": (ak.Box[int], [lambda: {"item": 1}]),
     "GInt": (ak.GI[int], [lambda: {"v": 1}, lambda: {}]),
-    "MissT": (MissT, [lambda: {}, lambda: {"m": 3, "n": 1}]),
+    "MissT": (MissT, [lambda: {}, lambda: {"m": 3, "n": 1}, lambda: {"m": 3}]),
     "Defaults": (Defaults, [lambda: {}, lambda: {"y": [5]}]),
     "SeqSeq": (SeqSeq, [lambda: {"rows": [[1], [2, 3]]}]),
     "MapSeq": (MapSeq, [lambda: {"m": {"ab": [1, 2]}}]),
